@@ -66,7 +66,9 @@ CONSTANTS Mode,
           LinkSegs, LinkMaxLen,  \* archive: link targets
           MaxMembers,
           Srcs,                  \* manifest: source folders used ({"p"} or {"p", "q"})
-          Pattern,               \* archive: "any"; "dir-sym-file": only archives whose members have these kinds in this order;
+          Format,                \* manifest: "flowir" | "dsl": the name under which the workflow definition is stored
+          Pattern,               \* manifest: "conf-first": a second entry only after an entry called conf;
+                                 \* archive: "any"; "dir-sym-file": only archives whose members have these kinds in this order;
                                  \* "chain": two symbolic-link members (b, then a or b again) followed by 1..MaxMembers-2 members
                                  \* of Kinds whose names / hard-link targets are paths over Segs (so that they can run through
                                  \* the links), kept only when every name and link target looks confined when examined on its
@@ -211,8 +213,11 @@ ApplyMember(fs, inp, i, base) ==
                          ELSE Fallback(fs1, inp, i, m.t, L, par.made, TRUE, Res(exists, fs1, par.made))
 
 (* ---- one manifest entry deployed below the instance directory ------------------------------------------------------ *)
+(* sources of manifest entries: the folders p, q; pa = the existing file p/a, pz = a file p/z that does not exist *)
+MSrc(t) == CASE t = "pa" -> Src("p") \o <<"a">> [] t = "pz" -> Src("p") \o <<"z">> [] OTHER -> Src(t)
 ApplyEntry(fs, m) ==
-    IF m.k = "copy" THEN
+    IF m.k = "copy" /\ m.t \in {"pa", "pz"} THEN Res(FALSE, fs, {})        \* copytree of a file / of nothing fails
+    ELSE IF m.k = "copy" THEN
         \* shutil.copytree(source, target/key): os.makedirs(dst) creates the parents, dst itself must not exist
         LET par == Walk(Target, Front(m.n), fs, {}, Fuel, TRUE)
             fs1 == PutDirs(fs, par.made)
@@ -226,7 +231,7 @@ ApplyEntry(fs, m) ==
         LET par == Walk(Target, Front(m.n), fs, {}, Fuel, FALSE)
             L == Loc(par.p, Last(m.n))
         IN IF ~par.ok \/ Kind(fs, L) # "none" THEN Res(FALSE, fs, {})
-           ELSE Res(TRUE, Put(fs, E(L, "sym", <<"">> \o Src(m.t))), {L})
+           ELSE Res(TRUE, Put(fs, E(L, "sym", <<"">> \o MSrc(m.t))), {L})
 
 (* ---- one staging operation of a component: sources are p/a, q/a (files), p/d, q/d (directories), ------------------ *)
 (* ---- arch = an archive with the single file member d/a -------------------------------------------------------------- *)
@@ -257,7 +262,9 @@ Apply(fs, inp, i) == CASE Mode = "archive" -> ApplyMember(fs, inp, i, Target)
 TouchedName(fs, n) == LET par == Walk(Target, Front(n), fs, {}, Fuel, FALSE)
                       IN IF ~par.ok THEN {} ELSE Touched(fs, Loc(par.p, Last(n)))
 Late(fs, late) == UNION {TouchedName(fs, n) : n \in late}
-(* After the manifest entries the deployment stores the workflow definition as conf/flowir_package.yaml: the directory   *)
+(* After the manifest entries the deployment stores the workflow definition as conf/flowir_package.yaml (conf/dsl.yaml   *)
+(* for a package in the DSL format) -- through a symbolic link, if an entry `conf/<that name>: x:link` made one: the     *)
+(* directory   *)
 (* conf is made unless the manifest has an entry literally called conf (then whatever that entry put there is used: a    *)
 (* copied folder -- or a LINK to the source folder, through which the file is then written).                            *)
 ConfDir == Append(Target, "conf")
@@ -269,7 +276,7 @@ Epilogue(fs, inp) ==
                      made == IF has THEN {} ELSE {ConfDir}
                      d == Final(ConfDir, fs1, Fuel)
                  IN IF ~d.ok \/ Kind(fs1, d.p) # "dir" THEN Res(FALSE, fs1, made)
-                    ELSE LET f == Final(Append(d.p, "flowir_package.yaml"), fs1, Fuel)
+                    ELSE LET f == Final(Append(d.p, IF Format = "dsl" THEN "dsl.yaml" ELSE "flowir_package.yaml"), fs1, Fuel)
                          IN IF ~f.ok \/ Kind(fs1, f.p) = "dir" THEN Res(FALSE, fs1, made)
                             ELSE Res(TRUE, Put(fs1, E(f.p, "file", <<>>)), made \cup {f.p})
 
@@ -318,7 +325,7 @@ ChainInputs == {<<l1, l2>> \o rest : l1 \in ChainLinks({"b"}), l2 \in ChainLinks
                                                   Len(r) = MaxMembers - 2 => r[Len(r)].k \in LastKinds}}
 
 Distinct(inp) == \A i, j \in 1..Len(inp) : i # j => inp[i].n # inp[j].n
-Shaped(inp) == Pattern # "dir-sym-file" \/ (Len(inp) = 3 /\ inp[1].k = "dir" /\ inp[2].k = "sym" /\ inp[3].k = "file")
+Shaped(inp) == (Pattern = "conf-first" /\ (Len(inp) = 2 => inp[1].n = <<"conf">>)) \/ Pattern \notin {"dir-sym-file", "conf-first"} \/ (Len(inp) = 3 /\ inp[1].k = "dir" /\ inp[2].k = "sym" /\ inp[3].k = "file")
 Inputs == IF Pattern = "chain" THEN {inp \in ChainInputs : StaticallyClean(inp)}
           ELSE {inp \in SeqsUpTo(Members, MaxMembers) : (Mode = "manifest" => Distinct(inp)) /\ Shaped(inp)}
 
